@@ -3,7 +3,7 @@ from __future__ import annotations
 
 from typing import Any, Dict, List, Optional, Set, Tuple
 
-from ..kit import caller_ok, nonempty_decision, Ctx, calls, calls_target, kw, loops, nf_cmp, normal_paths, poly_of, rule, short, stores
+from ..kit import alloc_literal, caller_ok, nonempty_decision, Ctx, calls, calls_target, kw, loops, nf_cmp, normal_paths, poly_of, rule, short, stores
 from ..paths import Event, Path
 from ..terms import NONE, Term, Unrecognised, cmp_nf, key, strip_ver, subterms
 from .c04 import writer_allowlist
@@ -210,22 +210,63 @@ def _marker_test(c: Term, pol: bool, markers: Set[str]) -> Optional[str]:
     return None
 
 
-def _cap_loop(ctx: Ctx, f, l: Event, cap_attr: str, label: str) -> None:
+def _cap_loop(ctx: Ctx, f, l: Event, cap_attr: str, label: str, outer: Optional[Path] = None) -> None:
     """T7/T5 for one consultation loop: permutation source, cap guard before the call, counter."""
     el = ("sym", f"{l.target[0]}∈{l.loopid}") if l.target else None
-    # counter: the loop-carried int whose update is +1
+    # counter: the loop-carried int whose update is +1, or the length of a list that starts
+    # empty and only ever grows by one append per iteration
     counter = None
     for n, ph in l.phi.items():
         for bp in l.paths:
             v = bp.env.get(n)
             if v is not None and v == ("bin", "+", ph, ("const", 1)):
                 counter = n
-    ctx.check(counter is not None, f, l.node, f"{label}: a counter grows by one", "n += 1", "no loop-carried counter with +1 update")
-    if counter is None:
-        return
-    ph = l.phi[counter]
     cap = ("attr", ("sym", "session"), cap_attr)
-    ctx.check(l.init.get(counter) == ("const", 0), f, l.node, f"{label}: counter starts at 0", "0", short(l.init.get(counter)))
+    lenlist = None
+    if counter is None:
+        for bp in l.paths:
+            for c, pol, _ in bp.conds:
+                for t in subterms(strip_ver(c)):
+                    if t[0] == "call" and key(t[1]) == "len" and len(t[2]) == 1 and t[2][0][0] == "sym" and t[2][0][1].startswith("new") and cap in list(subterms(strip_ver(c))):
+                        lenlist = (t[2][0], t)
+    ctx.check(counter is not None or lenlist is not None, f, l.node, f"{label}: a counter grows by one", "n += 1", "no loop-carried counter with +1 update")
+    if counter is None and lenlist is None:
+        return
+    if counter is not None:
+        ph = l.phi[counter]
+        ctx.check(l.init.get(counter) == ("const", 0), f, l.node, f"{label}: counter starts at 0", "0", short(l.init.get(counter)))
+
+        def grew(bp: Path) -> Optional[bool]:
+            v = bp.env.get(counter)
+            return True if v == ("bin", "+", ph, ("const", 1)) else (False if v == ph else None)
+
+        def shown(bp: Path) -> str:
+            return f"{counter} = {short(bp.env.get(counter))}"
+    else:
+        L, ph = lenlist
+        counter = short(ph)
+        lit = alloc_literal(outer, L) if outer is not None else None
+        ctx.check(lit is not None and lit[0] == "list" and len(lit[1]) == 0, f, l.node, f"{label}: counter starts at 0", "the counted list starts empty", short(lit))
+        before = True
+        if outer is not None:
+            for e in outer.events:
+                if e is l:
+                    break
+                if e.kind == "call" and (e.recv == L or e.data.get("mutates") == L):
+                    before = False
+        ctx.check(before, f, l.node, f"{label}: nothing is put in the counted list before the loop", "no mutation before the loop", "list touched before the loop")
+
+        def grew(bp: Path) -> Optional[bool]:
+            mut = [e for e in bp.walk_events(True) if e.kind == "call" and (e.recv == L or e.data.get("mutates") == L)]
+            top = [e for e in calls(bp, into_loops=False) if e.recv == L]
+            if not mut:
+                return False
+            if len(mut) == 1 and len(top) == 1 and top[0].name == "append" and len(top[0].args) == 1:
+                return True
+            return None
+
+        def shown(bp: Path) -> str:
+            return f"{counter}: " + (", ".join(e.name for e in bp.walk_events(True) if e.kind == "call" and e.recv == L) or "unchanged")
     want = ("<=0", None)
     for bp in l.paths:
         subm = [e for e in calls(bp, into_loops=False) if e.name == "submit_orders"]
@@ -245,11 +286,9 @@ def _cap_loop(ctx: Ctx, f, l: Event, cap_attr: str, label: str) -> None:
                     guard = True
             ctx.check(guard, f, subm[0].node, f"{label}: the cap is tested before the agent is consulted", f"`{counter} >= session.{cap_attr}` decided false on the path to submit_orders", "guard present" if guard else "agent consulted without a preceding cap test")
             ne = nonempty_decision(bp, subm[0].term)
-            inc = bp.env.get(counter) == ("bin", "+", ph, ("const", 1))
-            same = bp.env.get(counter) == ph
-            ok3 = ne is not None and ((ne and inc) or ((not ne) and same))
-            nonempty = [ne]
-            ctx.check(ok3, f, subm[0].node, f"{label}: the counter counts agents that produced orders", "count + 1 iff the batch is non-empty", f"non-empty={nonempty[-1] if nonempty else '?'} -> {counter} = {short(bp.env.get(counter))}")
+            g = grew(bp)
+            ok3 = ne is not None and g is not None and ne == g
+            ctx.check(ok3, f, subm[0].node, f"{label}: the counter counts agents that produced orders", "count + 1 iff the batch is non-empty", f"non-empty={ne} -> {shown(bp)}")
         elif bp.exit[0] == "break":
             stop = False
             for c, pol, _ in bp.conds:
@@ -277,7 +316,7 @@ def r4(ctx: Ctx) -> None:
         for l in loops(p):
             if any(e.name == "submit_orders" for bp in l.paths for e in calls(bp, into_loops=False)):
                 n += 1
-                _cap_loop(ctx, f, l, "max_normal_orders", "normal phase")
+                _cap_loop(ctx, f, l, "max_normal_orders", "normal phase", p)
     ctx.require(n == 1, f"{COL}: expected exactly one consultation loop")
 
 
@@ -322,7 +361,7 @@ def r5(ctx: Ctx) -> None:
                 if inner and batch:
                     ctx.check(bp.events.index(batch[0]) < bp.events.index(inner[0]), f, ol.node, "a batch is handled before high-frequency agents react to it", "batch loop precedes the high-frequency loop", "order reversed")
                 for l in inner:
-                    _cap_loop(ctx, f, l, "max_high_frequency_orders", "high-frequency phase")
+                    _cap_loop(ctx, f, l, "max_high_frequency_orders", "high-frequency phase", bp)
     ctx.require(n >= 2, f"{HO}: rate gate paths not found")
 
 
